@@ -1,5 +1,6 @@
 import Driver.Util
 import Driver.Object
+import Model.GoUrl
 
 /- Driver ops for jtp (C03, C04, C05). -/
 open Lean Drv
@@ -283,6 +284,16 @@ def webfingerOp (j : Json) : Except String Res := do
     let lines := (String.ofList raw).splitOn "\r\n"
     lines.length == 5 && lines[3]? == some "" && lines[4]? == some ""
   let asExpected := recorded.all fun raw => some raw == expected
+  -- the semantics library the translated `ResolveWebfinger` targets (Model/GoUrl.lean: strings.SplitN,
+  -- url.Values.Encode, url.QueryEscape transcribed) against the real library: the handle split at its
+  -- first `@` and encoded in Lean is the query the real `url.Values` produced
+  let transcribed : Bool := match j.getObjVal? "handle_sub", j.getObjVal? "query" with
+    | .ok (Json.str h), .ok (Json.str q) =>
+      match Go.Strings.splitNChar h.toList '@' 2 with
+      | [u, d] => Go.Url.valuesEncode [(Go.str "resource", [((Go.str "acct:" ++ u) ++ Go.str "@") ++ d])] == q.toList
+      | _ => false
+    | .ok (Json.str h), _ => (Go.Strings.splitNChar h.toList '@' 2).length != 2
+    | _, _ => true
   -- the model does not predict success (DNS/TLS decide whether the hand-built host is reachable):
   -- it states what may be on the wire if anything is
   -- when the lookup reached the simulator, the answer is read the way the model reads it
@@ -297,7 +308,8 @@ def webfingerOp (j : Json) : Except String Res := do
       | none => none
   pure { model := predicted.getD impl,
          preds := [("requests_wellformed", wellFormed), ("request_is_the_webfinger_query", asExpected),
-                   ("at_most_one_request", recorded.length ≤ 1), ("no_plaintext_connection", canary == 0)],
+                   ("at_most_one_request", recorded.length ≤ 1), ("no_plaintext_connection", canary == 0),
+                   ("query_is_the_transcribed_encoding", transcribed)],
          nontrivial := !recorded.isEmpty }
 
 end Ops
